@@ -4,7 +4,7 @@ inverse projection in cell_to_boundary is an element of split_edges(get_pentagon
 per-resolution area equals authalic area / cell count (values read from the MIR's switch, quotient computed
 by the checker from the extracted constants).  Not decided: that the projection preserves area (C16)."""
 from ..terms import fn_terms, fmt, strip_site, walk, const_float
-from ..query import loops_of, fn_table, const_tree, fconst
+from ..query import loops_of, fn_table, const_tree, fconst, closures_of, closure_subst, closure_item_source
 from ..consts import const_py
 from ..run import where
 from .cell_common import *
@@ -30,17 +30,34 @@ def run(ctx):
         run.missing("C04.R1", C2B)
     else:
         ft = fn_terms(facts, C2B)
-        invs = [c for c in ft.calls() if c.callee == INV]
+        invs = [(c, None) for c in ft.calls() if c.callee == INV]
+        for cp in closures_of(facts, C2B):
+            invs += [(c, cp) for c in fn_terms(facts, cp).calls() if c.callee == INV]
         run.floor("C04.R1", "inverse-projection call sites in cell_to_boundary", len(invs), 1)
         lps = loops_of(ft)
-        for c in invs:
-            pt = peel(c.args[1])
+        for c, cp in invs:
+            a1, a2 = c.args[1], c.args[2]
+            source = None
+            if cp is not None:
+                # the call sits in a closure handed to an iterator adaptor: captured variables are read in the enclosing
+                # function, the closure's item parameter ranges over the adapted iterator
+                a1, a2 = closure_subst(facts, cp, a1), closure_subst(facts, cp, a2)
+                its = closure_item_source(facts, cp)
+                if a1 is None or a2 is None or its is None or its[0].path != C2B:
+                    run.bad("C04.R1", "split-before-unproject", "inverse projection called from a closure whose use cannot be resolved - unrecognised idiom", where(c.span))
+                    continue
+                if peel(a1) == ("param", 2):
+                    source = its[1]
+            pt = peel(a1)
             ok = False
             why = "face point %s is not an element of the split pentagon" % fmt(pt)
-            if pt[0] == "payload" and pt[1] == "Some":
+            if source is None and pt[0] == "payload" and pt[1] == "Some":
                 lp = [l for l in lps if l.next and strip_site(l.item) == strip_site(pt)]
                 if lp and lp[0].source is not None:
-                    src = peel(lp[0].source)
+                    source = lp[0].source
+            if source is not None:
+                if True:
+                    src = peel(source)
                     views = []
                     while src[0] == "call" and src[1] != SPLIT and src[2] and (
                             src[1].endswith("::into_iter") or src[1].endswith("::iter") or src[1] == VERTS or src[1].endswith("::as_slice")):
@@ -50,10 +67,10 @@ def run(ctx):
                         ok = True
                         why = "unprojected points are iterated from get_vertices_vec(split_edges(get_pentagon(decode(cell)), n))"
                     else:
-                        why = "iterated collection is %s, expected the vertices of split_edges(get_pentagon(decode(cell)), n)" % fmt(lp[0].source)
+                        why = "iterated collection is %s, expected the vertices of split_edges(get_pentagon(decode(cell)), n)" % fmt(source)
             run.inst("C04.R1", "split-before-unproject", ok, why, where(c.span))
-            face_ok = peel(c.args[2])[0] == "field" and peel(c.args[2])[2] == "origin_id" and decoded_cell(peel(c.args[2])[1])
-            run.inst("C04.R1", "unproject-own-face", face_ok, "inverse projection uses face %s" % fmt(c.args[2]), where(c.span))
+            face_ok = peel(a2)[0] == "field" and peel(a2)[2] == "origin_id" and decoded_cell(peel(a2)[1])
+            run.inst("C04.R1", "unproject-own-face", face_ok, "inverse projection uses face %s" % fmt(a2), where(c.span))
     # ---- R2
     if AREA not in facts.fns:
         run.missing("C04.R2", AREA)
